@@ -1,0 +1,16 @@
+//go:build verif
+
+package bootguard
+
+// Hook for the external verification harness (/verif, property C18). Only
+// compiled with `-tags verif`.
+
+import (
+	"crypto"
+	"os"
+)
+
+// WritePrivKeyToFileVerif calls writePrivKeyToFile.
+func WritePrivKeyToFileVerif(k crypto.PrivateKey, f *os.File, password string) error {
+	return writePrivKeyToFile(k, f, password)
+}
